@@ -16,6 +16,7 @@ TRUSTED = [
     "modelled, not verified: go-diskqueue (a channel's queue is the multiset of messages waiting on it: placement and order are abstracted; only ephemeral queues are bounded), Go channels/select/mutexes (each operation is atomic at quiescence), time (every operation carries the harness's clock reading; timeouts are driven by VerifScan with margins of seconds)",
     "hooks /repo/nsqd/verif_core.go (VerifHeld, VerifScan: build tag verif); /stats over HTTP is the observation",
     "the coarse model is quiescent-to-quiescent: interleavings inside one operation (the windows K3-K5 of DESIGN.md section 6; K1 and K2 were repaired: F23, F24 of section 10.3) are below its grain; the schedule-level models of DESIGN 10.8 / 10.9 cover the lock protocol and the TOUCH / scan race",
+    "sub-operation model model/Counter.v (DESIGN 10.10): one consumer; the in-flight set's critical sections and the atomic count are single steps; tied to the code by the facts proofs/CounterSrc.v reads off the regenerated skeletons",
 ]
 ASSUMPTIONS = ["published message ids are fresh (C12)", "disk write errors do not occur"]
 TECHNIQUE = "Coq invariant proofs over all operation histories of the core state machine + trace validation of real nsqd runs (model replay and property monitor evaluated by vm_compute)"
@@ -29,5 +30,6 @@ def drivers():
         return ["-profile", "c03", "-n", str(n), "-ops", "35", "-seed", str(seed)]
     return [{"driver": "coredrive", "args": args, "replay_args": lambda tier: [], "timeout": 1500}]
 LEVEL_TEXT = 'Machine-checked proof (Coq) over the core model: every delivery in every history happens to a connected, subscribed consumer of an un-paused channel whose unanswered-unexpired count is strictly below a positive RDY; RDY 0 / no RDY / full window / CLS / paused channel make nothing deliverable; CLS zeroes RDY and later RDY is ignored; a paused topic hands nothing to its channels; delivery is enabled again as soon as the guard holds; RDY values outside [0,max] are refused for every spelling of the number. Trace validation of real nsqd runs with RDY up/down/0, CLS, pause/unpause at arbitrary points: the monitor checks the RDY window on every recorded delivery and that nobody ready is left waiting behind a non-empty queue.'
+LEVEL_TEXT = LEVEL_TEXT + " Sub-operation model of the consumer's count against the in-flight set (model/Counter.v): C03_count_exact_every_schedule, C03_count_rule_in_the_source, the zeroing Empty refuted (former known findings K1, K2)."
 LEVEL_NOTE = "Output buffering ('only messages already written may still arrive') is modelled as: a frame is sent at delivery; arrival lag is below the harness's settle logic, not proved. The exactness of the server's in-flight counter w.r.t. the entries the consumer owns is proved over all histories of the coarse model (C03_counter_exact, C03_true_window; proofs/CoreCountInv.v) and validated on every snapshot by the monitor; below operation granularity the real counter is updated outside the channel's critical sections; the two races with Channel.Empty that this allowed (formerly known findings K1, K2) were repaired (F23) and are replayed by the forced interleavings fin-vs-empty and deliver-vs-empty."
 DESIGN_REF = "DESIGN.md section 5.0 and C03"
